@@ -1,5 +1,6 @@
 import F3.Proofs.StoreHistory
 import F3.Proofs.StoreWitness
+import F3.Proofs.StoreGen
 /-!
 # C09 — Certificate store: gap-free immutable history with derivable power tables
 
@@ -227,5 +228,47 @@ example : getPowerTable cfgFixed m2 ds2 4 = .ok T1 ∧ getPowerTable cfgFixed m2
 open F3.Store.Witness in
 /-- `history_refines` has inhabitants: the invariant holds for the two-certificate witness store. -/
 example : Inv cfgFixed (ds2, m2) sp2 := ⟨repr2, memOk2, subsOk2⟩
+
+/-! ## Regenerated: the admission comparisons of `Put` as they stand in `certstore/certstore.go`
+
+`F3.Gen.Store.putAdmission` is translated on every run (`tools/go2lean/targets.d/Store.json`) from the
+statements of `Store.Put` from the first-instance check down to (excluding) the power-table computation:
+below `firstInstance` (code 1), bottom (2), invalid chain (3), `nextCert := firstInstance` resp.
+`latest + 1` (`uint64`, wrapped), beyond `nextCert` (4: gap), below it (`return nil`, 0: stale re-put),
+otherwise the successor (5: falls through). The lock statements are skipped; `IsZero()` and the error of
+`Validate()` are parameters. -/
+open F3.Proofs.StoreGen
+
+/-- **The model's admission rule is the source's.** For every store handle whose latest instance is below
+`2^64 - 1` and every certificate, the admission outcome of the model's `put` (`admissionCode`: which of the
+four admission errors, or a stale re-put answered `nil` without a write, or admitted as the successor) is
+the code the regenerated statement range of `Put` computes — same comparisons, same order, same `+ 1`. -/
+theorem put_admission_is_regenerated (cfg : Cfg) (m : Mem) (c : Cert)
+    (hl : ∀ l, m.latest = some l → l.inst + 1 < 2 ^ 64) :
+    admissionCode (put cfg m c) =
+      F3.Gen.Store.putAdmission c.inst (decide (c.chain = .zero)) m.first (decide (c.chain = .invalid))
+        (((m.latest.map (·.inst)).getD 0 : Nat) : Int) m.latest.isSome := by
+  rw [put_head_code]
+  unfold F3.Gen.Store.putAdmission Mem.next
+  cases h : m.latest with
+  | none =>
+    simp only [Option.isSome_none, Option.map_none, Option.getD_none, decide_eq_true_eq]
+    repeat' split
+    all_goals (first | rfl | contradiction | (exfalso; omega))
+  | some l =>
+    have := hl l h
+    simp only [Option.isSome_some, Option.map_some, Option.getD_some, decide_eq_true_eq]
+    repeat' split
+    all_goals (first | rfl | contradiction | (exfalso; omega) | (simp only [F3.GoInt.u64] at *; exfalso; omega))
+
+-- non-vacuity: all six codes from the generated code (latest = 7, first = 3)
+example : F3.Gen.Store.putAdmission 2 false 3 false 7 true = 1 ∧ F3.Gen.Store.putAdmission 8 true 3 false 7 true = 2 ∧
+    F3.Gen.Store.putAdmission 8 false 3 true 7 true = 3 ∧ F3.Gen.Store.putAdmission 9 false 3 false 7 true = 4 ∧
+    F3.Gen.Store.putAdmission 5 false 3 false 7 true = 0 ∧ F3.Gen.Store.putAdmission 8 false 3 false 7 true = 5 ∧
+    F3.Gen.Store.putAdmission 3 false 3 false 0 false = 5 ∧ F3.Gen.Store.putAdmission 4 false 3 false 0 false = 4 := by
+  decide
+open F3.Store.Witness in
+example : admissionCode (put cfgFixed m2 c3) = 0 ∧ admissionCode (put cfgFixed m2 { c4 with inst := 6 }) = 4 := by
+  decide
 
 end F3.Props.C09
